@@ -1050,10 +1050,19 @@ func sys_classifyHang(call, dump string) string {
 	switch {
 	case strings.Contains(dump, "(*request).Wait") && noWriter && strings.Contains(call, "closing"):
 		return "[F38a:late-sender] " + call + " never returned: its request entered writeCh after doWrites had exited (req.Wait blocks for ever)"
+	case sys_isF38c(dump) && noWriter && strings.Contains(call, "clos"):
+		return "[F38c:readts-after-orc-stop] " + call + " never returned: oracle.readTs waits in WaterMark.WaitForMark for a commit timestamp that was never marked done, and the watermark goroutines are gone (orc.Stop at the end of Close)"
 	case strings.Contains(dump, "(*WaterMark).WaitForMark") && noWriter:
-		return "[C38-timeout-readts] " + call + " did not return within the time bound: blocked in WaterMark.WaitForMark after the oracle was stopped"
+		return "[C38-timeout-readts] " + call + " did not return within the time bound: blocked in WaterMark.WaitForMark"
 	}
 	return "[C38-timeout] " + call + " did not return within the time bound"
+}
+
+// sys_isF38c: some goroutine waits in oracle.readTs → WaitForMark while no WaterMark.process
+// goroutine exists in the whole process: nobody can ever release it.
+func sys_isF38c(dump string) bool {
+	return strings.Contains(dump, "(*WaterMark).WaitForMark") && strings.Contains(dump, "(*oracle).readTs") &&
+		!strings.Contains(dump, "(*WaterMark).process")
 }
 
 type sys_pipeCfg struct {
@@ -1455,6 +1464,254 @@ func sys_lateSender(st *Stats) (out string, fails []string) {
 	return "err:pool-never-empty", nil
 }
 
+// sys_lateFlush replays F38c: a WriteBatch.Flush that was called before Close is parked at the
+// first line of commitAndSend (the harness holds orc.writeChLock as a slow committer would),
+// Close runs to completion, the Flush is released: its commit is refused with ErrBlockedWrites
+// and WriteBatch.commit then creates its next transaction, whose readTs waits for ever.
+func sys_lateFlush(st *Stats) (out string, fails []string) {
+	dir := scratchDir()
+	defer os.RemoveAll(dir)
+	db, err := badger.Open(sys_pipeOpts(dir, sys_pipeCfg{nm: 1, stall: 2, l0t: 1}))
+	if err != nil {
+		return "err:open", nil
+	}
+	wb := db.NewWriteBatch()
+	if err := wb.Set([]byte("k1"), []byte("v1")); err != nil {
+		db.Close()
+		return "err:set", nil
+	}
+	release := badger.VerifSysHoldCommitLock(db)
+	done := make(chan string, 1)
+	go func() {
+		defer func() {
+			if r := recover(); r != nil {
+				done <- "panic:" + fmt.Sprint(r)
+			}
+		}()
+		err := wb.Flush()
+		if err != nil {
+			done <- "returned:" + strings.ReplaceAll(err.Error(), " ", "_")
+		} else {
+			done <- "returned:nil"
+		}
+	}()
+	parked := false
+	for i := 0; i < 500 && !parked; i++ { // wait until the Flush stands at the lock
+		time.Sleep(10 * time.Millisecond)
+		parked = strings.Contains(sys_allStacks(), "(*Txn).commitAndSend")
+	}
+	if !parked {
+		release()
+		db.Close()
+		return "err:flush-not-parked", nil
+	}
+	closed := make(chan error, 1)
+	go func() { closed <- db.Close() }()
+	select {
+	case <-closed:
+	case <-time.After(sys_callLimit):
+		dump := sys_allStacks()
+		sys_saveDump(dump)
+		release()
+		return "close-hangs", []string{sys_classifyHang("Close", dump)}
+	}
+	release()
+	// the Flush has one entry to commit on a closed DB: it returns at once or never. After 5 s
+	// the stacks decide: waiting in readTs with no watermark goroutine left is for ever.
+	deadline := time.After(sys_callLimit)
+	for {
+		select {
+		case res := <-done:
+			st.Inc("late-flush:" + lockFirstWords(res, 1))
+			return "flush-" + res + " close=returned", nil
+		case <-time.After(5 * time.Second):
+			if dump := sys_allStacks(); sys_isF38c(dump) && strings.Contains(dump, "(*WriteBatch).commit") {
+				st.Inc("late-flush:hangs")
+				return "flush-hangs close=returned", []string{"[F38c:readts-after-orc-stop] WriteBatch.Flush called before Close and scheduled after it never returns: its commit is refused (ErrBlockedWrites) and WriteBatch.commit's next newTransaction blocks in oracle.readTs → WaterMark.WaitForMark; the commit timestamp's Done mark went to a stopped watermark (orc.Stop at the end of Close)"}
+			}
+		case <-deadline:
+			dump := sys_allStacks()
+			sys_saveDump(dump)
+			return "flush-timeout close=returned", []string{sys_classifyHang("WriteBatch.Flush (closed)", dump)}
+		}
+	}
+}
+
+type sys_gcLogger struct {
+	mu       sync.Mutex
+	removing chan struct{}
+	fired    bool
+}
+
+func (l *sys_gcLogger) Errorf(string, ...interface{})   {}
+func (l *sys_gcLogger) Warningf(string, ...interface{}) {}
+func (l *sys_gcLogger) Debugf(string, ...interface{})   {}
+func (l *sys_gcLogger) Infof(f string, a ...interface{}) {
+	// value-log GC logs "Removing fid: N" right before it removes the file it has rewritten
+	if strings.HasPrefix(f, "Removing fid") {
+		l.mu.Lock()
+		if !l.fired {
+			l.fired = true
+			close(l.removing)
+		}
+		l.mu.Unlock()
+	}
+}
+
+// sys_gcReader: reader R1 sits inside Item.Value(fn) on a live value of the oldest value-log
+// file (holding that file's read lock), RunValueLogGC rewrites that file and waits for R1
+// before deleting it, and from inside fn R1 waits (bounded, 5 s) for a second reader R2 that
+// reads a value stored in the NEWEST value-log file. All three calls must return.
+func sys_gcReader(st *Stats) (out string, fails []string) {
+	for attempt := 0; attempt < 3; attempt++ {
+		out, fails, setupOK := sys_gcReaderOnce(st)
+		if setupOK {
+			return out, fails
+		}
+		st.Inc("gc-reader:setup-retry")
+	}
+	return "setup-failed", nil
+}
+
+func sys_gcReaderOnce(st *Stats) (out string, fails []string, setupOK bool) {
+	dir := scratchDir()
+	defer os.RemoveAll(dir)
+	lg := &sys_gcLogger{removing: make(chan struct{})}
+	open := func() (*badger.DB, error) {
+		return badger.Open(badger.DefaultOptions(dir).WithSyncWrites(false).WithValueLogFileSize(1 << 20).
+			WithValueThreshold(64).WithNumVersionsToKeep(1).WithNumCompactors(2).WithCompactL0OnClose(true).
+			WithLogger(lg).WithMetricsEnabled(false).WithCompression(options.None).WithBlockCacheSize(0).WithIndexCacheSize(0))
+	}
+	val := func(tag string) []byte { return bytes.Repeat([]byte(tag), 4096/len(tag)) }
+	db, err := open()
+	if err != nil {
+		return "", nil, false
+	}
+	set := func(k string, v []byte) error {
+		return db.Update(func(t *badger.Txn) error { return t.Set([]byte(k), v) })
+	}
+	if set("keep", val("keep")) != nil {
+		db.Close()
+		return "", nil, false
+	}
+	for round := 0; round < 2; round++ { // the second round makes the first round's values stale
+		for i := 0; i < 400; i++ {
+			if set(fmt.Sprintf("k%04d", i), val(fmt.Sprintf("r%dv%04d", round, i))) != nil {
+				db.Close()
+				return "", nil, false
+			}
+		}
+	}
+	_ = set("other", val("othr"))
+	if db.Close() != nil { // flush + L0 compaction: discard statistics per value-log file
+		return "", nil, false
+	}
+	if db, err = open(); err != nil {
+		return "", nil, false
+	}
+	const bound = 5 * time.Second
+	inCallback := make(chan struct{})
+	startR2 := make(chan struct{})
+	r2Res := make(chan error, 1)
+	r2Seen := make(chan error, 1)
+	r1Done := make(chan error, 1)
+	gcDone := make(chan error, 1)
+	var r2Late atomic.Bool
+	go func() { // R2
+		<-startR2
+		r2Res <- db.View(func(t *badger.Txn) error {
+			it, err := t.Get([]byte("other"))
+			if err != nil {
+				return err
+			}
+			v, err := it.ValueCopy(nil)
+			if err == nil && !bytes.Equal(v, val("othr")) {
+				err = errors.New("wrong value for other")
+			}
+			return err
+		})
+	}()
+	go func() { // R1
+		r1Done <- db.View(func(t *badger.Txn) error {
+			it, err := t.Get([]byte("keep"))
+			if err != nil {
+				return err
+			}
+			return it.Value(func(v []byte) error {
+				close(inCallback)
+				<-startR2
+				select {
+				case e := <-r2Res:
+					r2Seen <- e
+				case <-time.After(bound):
+					r2Late.Store(true)
+				}
+				return nil
+			})
+		})
+	}()
+	closeDB := func() string {
+		c := make(chan error, 1)
+		go func() { c <- db.Close() }()
+		select {
+		case <-c:
+			return "ok"
+		case <-time.After(30 * time.Second):
+			return "hangs"
+		}
+	}
+	select {
+	case <-inCallback:
+	case <-time.After(20 * time.Second):
+		close(startR2)
+		closeDB()
+		return "", nil, false
+	}
+	go func() { gcDone <- db.RunValueLogGC(0.1) }()
+	select {
+	case <-lg.removing:
+	case <-gcDone: // nothing to rewrite: the setup did not produce discard statistics
+		close(startR2)
+		<-r1Done
+		closeDB()
+		return "", nil, false
+	case <-time.After(30 * time.Second):
+		close(startR2)
+		closeDB()
+		return "", nil, false
+	}
+	time.Sleep(300 * time.Millisecond) // GC reaches the point where it waits for R1's file lock
+	close(startR2)
+	wait := func(c chan error, what string) string {
+		select {
+		case e := <-c:
+			if e != nil {
+				return "err"
+			}
+			return "ok"
+		case <-time.After(30 * time.Second):
+			fails = append(fails, "[C38-timeout] "+what+" did not return within 30 s")
+			return "hangs"
+		}
+	}
+	r1 := wait(r1Done, "View/Item.Value (R1, value in the file being garbage-collected)")
+	r2 := "ok"
+	if r2Late.Load() {
+		r2 = "late"
+		fails = append(fails, "[C38-timeout] View/Get+ValueCopy of a value in another value-log file (R2) did not return within 5 s while RunValueLogGC waited for reader R1 of the file it removes: R1 → R2 → GC → R1")
+		wait(r2Res, "R2 after R1's callback gave up")
+	} else {
+		r2 = wait(r2Seen, "R2")
+	}
+	gc := wait(gcDone, "RunValueLogGC")
+	cl := closeDB()
+	if cl != "ok" {
+		fails = append(fails, "[C38-timeout] Close after the GC scenario did not return within 30 s")
+	}
+	st.Inc("gc-reader:r2=" + r2)
+	return fmt.Sprintf("ok r1=%s r2=%s gc=%s", r1, r2, gc), fails, true
+}
+
 func sys_execPipeline(intents []string, st *Stats) (final, outs, oracle []string) {
 	if l, err := strconv.Atoi(params["limit"]); err == nil && l > 0 {
 		sys_callLimit = time.Duration(l) * time.Second
@@ -1484,6 +1741,18 @@ func sys_execPipeline(intents []string, st *Stats) (final, outs, oracle []string
 			}
 		case "sample": // replayed sample
 			emit(line, "ok")
+		case "late-flush":
+			out, fails := sys_lateFlush(st)
+			emit(line, out)
+			for _, f := range fails {
+				oracle = append(oracle, fmt.Sprintf("line %d: %s :: %s", len(final), line, f))
+			}
+		case "gc-read-during-removal":
+			out, fails := sys_gcReader(st)
+			emit(line, out)
+			for _, f := range fails {
+				oracle = append(oracle, fmt.Sprintf("line %d: %s :: %s", len(final), line, f))
+			}
 		case "late-sender":
 			out, fails := sys_lateSender(st)
 			emit(line, out)
